@@ -5,7 +5,7 @@ patterns, and as request values at arities 0..6 against model kinds using the
 built-in matchers."""
 import itertools
 import random
-from common import enc
+from common import enc, Raw
 from engine import *
 import c15
 
